@@ -14,8 +14,11 @@ Property theorems about the builder model (SaModel/Build) — every statement is
                   offsets, dictionary keys (first part of the file)
   umbrella        `C05_push_ok_exact` / `C05_interp_undefined_rejected` (one push, any nesting), `C05_toMarrow_ok_exact` /
                   `C05_toMarrow_undefined_rejected` (whole `to_marrow` run): ok ⇒ the documented value `Spec.interp`
-                  is defined and is what the arrays hold; undefined ⇒ never accepted.  Corollaries of R2 / R3
-                  (Props/C01.lean) and `C01_build_decode` (Props/C01.lean), with their coverage.
+                  is defined and is what the arrays hold; undefined ⇒ never accepted.  Corollaries of the `Safe`-free
+                  refinement theorems of Props/C01Obs.lean — R2' `push_interp'` / `push_interp_det`, R3'
+                  `runRows_interp'` (schema predicate `coveredWF`) and `C01_build_decode'` (`coveredF`) —, with their
+                  coverage.
+  leaves          Props/C05Leaf.lean: "cannot be represented" at a leaf is `Spec.specLeaf = none` (Spec/Leaf.lean)
   lossy cells     `documentedLossy` (float narrowing, int → float, decimal columns from text / floats) and
                   `C05_only_documented_lossy`: in every other cell `Spec.interpScalar` is the identity on the value
                   (`Faithful`) or an error; `C05_lossy_cells_alter`: each lossy family does alter a value (witnesses)
@@ -261,7 +264,7 @@ theorem dict_key_overflow (ext : Ext) (p : String) (t : IntTy) (v : Validity) (k
 previous rows followed by that value: nothing wrapped, truncated, defaulted or dropped.  Hypotheses are those of R2' for
 determined states (`Props.C01.push_interp_det`, the hidden-rows refinement of Props/C01Obs.lean — NO `Safe`): the WEAK
 state invariant `WFH`, `NoDictKey` (holds of every builder `build_builder` constructs) and `Det b` (no row of `b` is
-undetermined) — all three hold of every strictly well-formed state (`WFH_of_WFB`, `Det_of_WFB`: the former hypotheses
+undetermined) — all three hold of every strictly well-formed state (`WFH_of_WFB`, `Det_of_WFB`: the stronger
 `WFB b`, `Safe b` imply them) and of the root of `to_marrow` after every record; `Shape` (the builder is the one
 `build_builder` makes for the field), `structStreamsAlternate` (every raw key/value call stream inside `x` alternates:
 Map builders refuse the others, struct builders ACCEPT them although the mapping gives them no meaning —
@@ -296,7 +299,8 @@ theorem C05_interp_undefined_rejected (ext : Ext) (x : SVal) (b : B) (dt : DataT
   cases hi
 
 /-- the same for a freshly built builder: everything but `covered` comes from `build_builder` — no hypothesis on the
-schema beside it -/
+schema beside it.  (`covered` through `Props.C01.newDT_shape`; `Build.newDT_shapeW` establishes the same `Shape` from the
+weaker `coveredW`, which would also admit dictionaries whose value builder refuses strings — not restated.) -/
 theorem C05_new_interp_undefined_rejected (ext : Ext) (x : SVal) (path : String) (dt : DataType) (n : Bool)
     (md : Metadata) (b : B) (hc : covered dt = true) (hnew : newDT path dt n md = .ok b)
     (hraw : structStreamsAlternate x = true) (hnar : noRaw x = true ∨ narrowDT dt = true)
@@ -373,8 +377,8 @@ example : ∀ arrs, toMarrow {} Props.C01.exUnsafeFields
 /-! ## the documented lossy cells are the only cells that alter a value
 
 Every leaf of `Spec.interpDT` goes through `Spec.interpScalar` (scalars, the bytes of a binary value presented as a
-list) or is structural (records by name, sequences element by element, `u8All` for bytes given as a sequence:
-`u8_exact` above).  `documentedLossy` (Lemmas/C05Exact.lean) lists the cells (leaf kind of the column, serde scalar call)
+list) or is structural (records by name, sequences element by element, `Spec.bytesOf` — equal to the model's `u8All`,
+`bytesOf_eq` — for bytes given as a sequence: `u8_exact` above).  `documentedLossy` (Lemmas/C05Exact.lean) lists the cells (leaf kind of the column, serde scalar call)
 the documentation declares lossy; in every other cell the logical value `interpScalar` defines is the value presented
 (`Faithful`: same number / same float bits or the IEEE widening / same text or `to_string()` of the scalar / same
 bytes / what the temporal codec returns for the text — whose own exactness is C14) or there is no value (error). -/
